@@ -96,4 +96,10 @@ theorem translated_history (key : α → κ) (P : Nat) (d : α) (n : Nat) (ops :
   obtain ⟨s', outs, h1, _, h3⟩ := GenA.run_refines (ASet.inv_zero key P d n) ops
   exact ⟨s', outs, h1, h3⟩
 
+/-- The slice the *translated* `Deref` hands out is, on every well-formed set, exactly the model's view (strictly
+    ascending by `view_ascending`); on any buffer at all it is taken without a panic. -/
+theorem translated_view {key : α → κ} {P : Nat} {s : ASet α} (h : s.Inv key P) :
+    GenA.deref key P s = some s.view ∧ AscK (s.view.map key) :=
+  ⟨(GenA.deref_eq key P s).2 h.len_le, h.sorted⟩
+
 end Stevia.C03
